@@ -11,4 +11,4 @@ for id in "$@"; do
     /verif/tools/seedtest.sh /verif/seeded/${id}-${suf}/patch.diff "$id" 2>&1 | grep "^---\|VIOLATION\|SUMMARY\|INCONCL" | head -3 | cut -c1-230
   fi
 done
-git -C /repo status --short
+git -C "${VERIF_REPO:-/repo}" status --short
